@@ -90,7 +90,7 @@ fn main() {
         }
     };
     if let Some(m) = &ctx.model {
-        rep.model_requests = m.requests;
+        rep.model_requests += m.requests;
     }
     let js = serde_json::to_string_pretty(&rep.to_json()).unwrap();
     if out.is_empty() {
